@@ -124,22 +124,22 @@ func createDefaultFunctions(a aliaser, o output.Output) template.FuncMap {
 			return exporter.Export(input)
 		},
 		"importAlias": func(i string) string {
-			return a.Alias(i)
+			return imports.Absolute(a, i)
 		},
 		"containerAlias": func() string {
-			return a.Alias(consts.GontainerHelperPath + "/container")
+			return imports.Absolute(a, consts.GontainerHelperPath+"/container")
 		},
 		"groupErrorAlias": func() string {
-			return a.Alias(consts.GontainerHelperPath + "/grouperror")
+			return imports.Absolute(a, consts.GontainerHelperPath+"/grouperror")
 		},
 		"exporterAlias": func() string {
-			return a.Alias(consts.GontainerHelperPath + "/exporter")
+			return imports.Absolute(a, consts.GontainerHelperPath+"/exporter")
 		},
 		"callerAlias": func() string {
-			return a.Alias(consts.GontainerHelperPath + "/caller")
+			return imports.Absolute(a, consts.GontainerHelperPath+"/caller")
 		},
 		"copierAlias": func() string {
-			return a.Alias(consts.GontainerHelperPath + "/copier")
+			return imports.Absolute(a, consts.GontainerHelperPath+"/copier")
 		},
 		"isTagged": func(id string, tag string) bool {
 			_, ok := tagsServices[tag][id]
